@@ -36,6 +36,9 @@ RULE = (
     "kind sequence: ONE network object is queried (all functions x all settings), queried again without an edit, then edited in place 2-4 times through the public API "
     "(add_node_to_edge / remove_node_from_edge / remove_edge+add_edge(idx=same id) / double_edge_swap keep the node- and edge-ID sets; add/remove edge, add/remove node change them; "
     "edits are chosen so that no repeated or empty edge arises) and queried again after every edit, each time against the enumeration over the CURRENT members(). "
+    "kind scale: n = (11,16,24,33,47,60,85,120,170,249,250,251,260,300,380,470,600)[idx % 17] nodes, up to 400 distinct edges of size <= 4 (n <= 60: also one edge of 6-7 nodes with sub-edges), "
+    "flavour (labels, edge IDs) a deterministic function of idx; planted complete triangles, partially closed triangles, 4-edges with some faces, pairs of maximal faces sharing a missing pair, "
+    "singletons, isolated nodes; all 12 settings + defaults. "
     "one evaluation = one return value compared with brute-force enumeration. distinct_nontrivial = distinct (labels, family of member sets) with an edge of size >= 3"
 )
 ASSUMPTIONS = [
@@ -86,23 +89,29 @@ def floors(tier):
     f = {  # minima per 500 random + 120 closed cases (about 0.7 x the smallest value observed over seeds; the exhaustive kind only adds to them)
         "fn:simplicial_edit_distance": 7000, "fn:edit_simpliciality": 4000, "fn:simplicial_fraction": 4000,
         "fn:mean_face_edit_distance": 7000, "fn:face_edit_simpliciality": 4000, "default-argument-calls": 3000,
-        "in:labels:int": 120, "in:labels:gap": 120, "in:labels:str": 120,
+        "in:labels:int": 100, "in:labels:gap": 100, "in:labels:str": 100, "in:no-edges": 10, "in:one-edge": 40, "in:only-singleton-edges": 15,
         "in:redundant-missing-face": 300, "in:overlapping-maximal-faces": 350, "in:closed-above-min_size": 1100,
-        "in:closed-with-eligible-edge-of-size>=3": 200,
+        "in:closed-with-eligible-edge-of-size>=3": 170,
         "val:sed>0": 1500, "val:sed-nan": 500, "val:sf-strictly-between-0-and-1": 400, "val:sf=1": 450, "val:sf=0": 1000,
         "val:mfed-strictly-between-0-and-1": 1100, "val:sed-normalized-exact": 2000, "val:sed-normalized-sandwich": 50,
         "score-range-evaluations": 12000, "closed-clause-evaluations": 3500,
     }
     scale = plan(tier)["random"] // 500
     f = {k: v * scale for k, v in f.items()}
-    seq = {  # minima per 500 sequences (about 0.65 x the smallest value observed over seeds 0..4)
-        "seq:second-call-evaluations": 700, "seq:evaluations-after-edit": 1000, "seq:members-changed-with-same-id-sets": 600,
-        "seq:maximal-edges-changed-with-same-id-sets": 180, "seq:id-sets-changed": 320,
-        "seq:edit:add_node_to_edge": 140, "seq:edit:remove_node_from_edge": 170, "seq:edit:replace_edge": 200, "seq:edit:double_edge_swap": 60,
-        "seq:edit:add_edge": 90, "seq:edit:remove_edge": 120, "seq:edit:add_node": 35, "seq:edit:remove_node": 65,
+    seq = {  # minima per 500 sequences (at most 0.5 x the smallest value observed over seeds 0..15)
+        "seq:second-call-evaluations": 500, "seq:evaluations-after-edit": 700, "seq:members-changed-with-same-id-sets": 440,
+        "seq:maximal-edges-changed-with-same-id-sets": 130, "seq:id-sets-changed": 230,
+        "seq:edit:add_node_to_edge": 105, "seq:edit:remove_node_from_edge": 120, "seq:edit:replace_edge": 150, "seq:edit:double_edge_swap": 45,
+        "seq:edit:add_edge": 65, "seq:edit:remove_edge": 85, "seq:edit:add_node": 25, "seq:edit:remove_node": 44,
     }
     sscale = plan(tier)["sequence"] // 500
     f.update({k: v * sscale for k, v in seq.items()})
+    scl = {  # per pass over the 17 sizes of the scale kind; sizes and planted structure are deterministic functions of idx
+        "scale:11<=n<=60": 6, "scale:61<=n<=250": 5, "scale:n>250": 6, "scale:n>250:planted-simplices": 70, "scale:n>250:planted-overlap": 50,
+        "scale:n>250:planted-partial": 70, "scale:n>250:planted-four": 30, "scale:61<=n<=250:planted-simplices": 25, "scale:11<=n<=60:largest-edge>=6": 1,
+    }
+    cscale = plan(tier)["scale"] // 17
+    f.update({k: v * cscale for k, v in scl.items()})
     f["exhaustive:hypergraphs"] = _exh_count(tier)
     return f
 
